@@ -124,8 +124,9 @@ func verificationContext(u string, keys map[string][]byte, arch string, opts *in
 
 func (i *indexCache) get(ctx context.Context, repoName, repoURL string, keys map[string][]byte, arch string, opts *indexOpts) (NamedIndex, error) {
 	u := IndexURL(repoURL, arch)
-	// Cached results are kept per verification context, never shared across them.
-	cacheURL := u + "#" + verificationContext(u, keys, arch, opts)
+	// Cached results are kept per verification context, never shared across them,
+	// and per repository name: the cached NamedIndex carries the name it was asked under.
+	cacheURL := u + "#" + verificationContext(u, keys, arch, opts) + "#" + repoName
 
 	ctx, span := otel.Tracer("go-apk").Start(ctx, fmt.Sprintf("indexCache.get(%q)", u))
 	defer span.End()
